@@ -53,7 +53,8 @@ check("C12", "S", "exploration", "reference-model monitor: in-memory backend in 
       "per-object modes, skip_types, read-only images, parameters of unselected objects) and random sequences of up to 12 calls run against a "
       "set-of-names model; ordered backend calls, resulting store and exception class must agree, the failing step must not mutate and later "
       "objects must not be touched; the backend also records the pool_scope every state operation reaches it with, which must be the "
-      "configured one (a pool-aware backend decides by it where to look).",
+      "configured one (a pool-aware backend decides by it where to look), and the show_location of every presence lookup, which must be the "
+      "location the operation itself addresses.",
       "Trusted: the model's reading of the README table and of the undocumented check_mode (second letter r/f when the root is missing, first "
       "letter f recreates the root). The in-memory backend is not a SourcedStateBackend.", "DESIGN.md §3 C12")
 
@@ -178,7 +179,8 @@ check("C15", "Tools", "exploration", "differential oracle: executions and unset 
       "graph, selections of 1-2 of up to 3 vms, remove_set values and 1-3 workers are sampled; executed setup tests must be exactly the path "
       "(each once), unset requests on every worker exactly the vm's states below the target, nothing of unselected vms; nonexistent "
       "from/to states and targets outside the remove-set graph must raise. A third of the cases use three workers on two selected vms; "
-      "per-vm remove sets (remove_set_<vm>) differing from the generic one are drawn.",
+      "per-vm remove sets (remove_set_<vm>) differing from the generic one are drawn; under isolated pools (lxc workers, pool_scope without "
+      "'swarm') every worker must execute the path once for its own pool.",
       "Trusted: the drawn setup tree; remove_set=all (which selects object creation tests as leaves) and to_state=install (hard-wired to the "
       "shipped 'customize' test) are outside the workload.", "DESIGN.md §3 C15")
 check("C20", "Tools", "exploration", "step-attributed execution counting through the real Manu.run with failure injection (failing test class / exception inside a step)",
